@@ -11,7 +11,7 @@ import (
 func init() {
 	register(&core.Rule{ID: "C01.12", Prop: "C01", MinSites: 2,
 		Desc: "consumed is reported: in the count-returning Reader methods of *conn (Read, WriteTo) every advance c.buffer = c.buffer[k:] is matched, on every path to a return, by the count result having been assigned from or increased by k – bytes taken from the read window are never silently dropped from the number the caller gets",
-		Run: runC01_12})
+		Run:  runC01_12})
 }
 
 func runC01_12(c *core.Ctx) {
